@@ -81,6 +81,7 @@ RULES = [
  ('writes the pickle again when the text file was saved on its own', 'C03', 'file-written-by-to_file-holds-an-older-model/pkl (to_file(); set_value; to_file(yml); to_file(): the pickle still held the first state)'),
  ('numpy number handed to a math function is the python number', 'C19', '*/exception-InvalidOperation (ROUND / CEILING / FLOOR family with a numpy.float64 argument: Decimal(repr(x)) cannot read numpy 2\'s repr)'),
  ('left unconnected are connected by the next evaluate', 'C01', 'stale-value (a build fails while good precedents are queued; everything they read is already in the model, so no later build made their edges)'),
+ ('shows a reference is not left work in progress', 'C09', 'retry-returns-a-value/iterative/*/under-reference-valued-cell (=OFFSET(A1,0,0) over a failing cell answered None on the retry; opened by 34b6f28)'),
  ('an array and an error value', 'C13', 'array-formula-member-not-pointwise/array-with-error-valued-scalar'),
 ]
 
